@@ -27,7 +27,9 @@ def hTwoSided (ref test : List α) : Nat := (devs ref test).foldl (fun acc d => 
 def hPlus (ref test : List α) : Nat := (devs ref test).foldl (fun acc d => max acc d.toNat) 0
 def hMinus (ref test : List α) : Nat := (devs ref test).foldl (fun acc d => max acc (-d).toNat) 0
 
-/-- the statistic exactly as `_calculate_statistic` / `ks_2samp` evaluate it in the carrier -/
+/-- the statistic exactly as frouros' own `_calculate_statistic` (IncrementalKSTest) evaluates it in the carrier: the raw CDF difference.
+`scipy.stats.ks_2samp` in its exact mode renormalises it to `h / lcm` (one ulp away at most): see `Kuiper.ks2sampStatistic`; the KS checks compare
+the statistic with a tolerance, the Kuiper p-value (discontinuous on that lattice) uses the renormalised form -/
 def statistic (ref test : List α) : α :=
   let n : α := Num.ofNat ref.length
   let m : α := Num.ofNat test.length
